@@ -1,6 +1,6 @@
 (* C10 -- decision-diagram algebra agrees with pointwise semantics.  Statements only. *)
 From Coq Require Import List Arith Bool.
-From DS Require Import Model.ADD Proofs.ADDProofs Proofs.ModelCount.
+From DS Require Import Model.ADD Model.Oracle Proofs.ADDProofs Proofs.ModelCount Proofs.OracleExact Proofs.ADDClosure.
 Import ListNotations.
 
 (* ---- values: adding tallies, and subtracting one from a valid tally, is component-wise and yields the single
@@ -65,6 +65,32 @@ Theorem C10_eval_is_saturating_path_sum : forall d x, wf_type (d_type d) -> wt_l
   eval d x = match path_sum (d_type d) (d_levels d) (d_root d) x with Some s => clip (d_type d) s | None => None end.
 Proof. exact eval_as_path. Qed.
 
+(* ---- any sequence of operations: the constructors produce well-formed diagrams (okd: edge values of the right
+   length; reachable nodes in range and live; children of the last level 0), sum / restrict / edge updates keep
+   them well formed, and well-formedness gives every side condition of the theorems above ---- *)
+Theorem C10_wellformed_suffices : forall d, okd d ->
+  wt_levels (d_type d) (d_levels d) /\ live_from (d_type d) (d_levels d) (d_root d)
+  /\ live_w (d_type d) (diameter d) (d_levels d) (d_root d).
+Proof. exact okd_conditions. Qed.
+Theorem C10_chain_wellformed : forall t units, okd (chain t units).
+Proof. exact chain_okd. Qed.
+Theorem C10_tree_wellformed : forall t units, okd (tree t units).
+Proof. exact tree_okd. Qed.
+Theorem C10_sum_wellformed : forall d1 d2, okd d1 -> okd d2 -> d_type d2 = d_type d1 ->
+  length (d_levels d1) = length (d_levels d2) -> okd (add_sum d1 d2).
+Proof. exact sum_okd. Qed.
+Theorem C10_restrict_wellformed : forall d lvl v, okd d -> 2 <= length (d_levels d) -> lvl < length (d_levels d) ->
+  exists r, add_restrict d lvl v = Some r /\ okd r.
+Proof. exact restrict_okd. Qed.
+Theorem C10_update_wellformed : forall d locs f v, okd d -> (forall a, f a = a_add (d_type d) a v) -> wt (d_type d) v ->
+  okd (update d locs f).
+Proof. exact update_okd. Qed.
+(* an edge update adds v to the value of exactly the assignments whose path uses one of the updated edges (once per
+   listed edge on the path) and leaves every other value unchanged *)
+Theorem C10_update_semantics : forall d locs f v, okd d -> (forall a, f a = a_add (d_type d) a v) -> wt (d_type d) v ->
+  forall x, eval (update d locs f) x = Nat.iter (hits d x locs) (fun e => a_add (d_type d) e v) (eval d x).
+Proof. exact update_semantics. Qed.
+
 Example C10_nonvacuous :
   let t := tally 2 1 2 in
   let d := mkADD t [0; 1] 0 [[mkNode true 0 0 (Some [0; 1; 0; 0; 0]) (Some [1; 0; 0; 0; 1])];
@@ -85,3 +111,10 @@ Print Assumptions C10_eval_restrict_first.
 Print Assumptions C10_refuted_F12.
 Print Assumptions C10_modelcount.
 Print Assumptions C10_eval_is_saturating_path_sum.
+Print Assumptions C10_wellformed_suffices.
+Print Assumptions C10_chain_wellformed.
+Print Assumptions C10_tree_wellformed.
+Print Assumptions C10_sum_wellformed.
+Print Assumptions C10_restrict_wellformed.
+Print Assumptions C10_update_wellformed.
+Print Assumptions C10_update_semantics.
